@@ -128,7 +128,12 @@ def run(prop, tier):
     cs = json.load(open(csum))
     require(ts["runs"] > 100000 and cs["runs"] > 5000, "too few formatting runs: %d, %d" % (ts["runs"], cs["runs"]))
     require(ts["sums"].get("placements", 0) > 10000, "too few comment placements")
-    require(ts["sums"].get("modelImprecise", 0) == 0, "the anchoring model no longer predicts where comments are re-emitted (%d placements)" % ts["sums"].get("modelImprecise", 0))
+    # the anchoring model is exact on the unchanged tree.  A placement it does not predict is a C13 finding when the comment
+    # crossed an element (reported below as comment-moved-unmodelled / -backwards); mispredictions across separators only
+    # break no clause of the property and mean the model needs attention: tool error, not an alarm
+    imprecise = ts["sums"].get("modelImprecise", 0)
+    unmodelled = sum(1 for f in ts["findings"] if f.get("kind") in ("comment-moved-unmodelled", "comment-moved-backwards"))
+    require(imprecise == 0 or unmodelled > 0, "the anchoring model no longer predicts where comments are re-emitted (%d placements, none across an element)" % imprecise)
     # 4. the file-level state machine on the real binary
     trace = os.path.join(W, "trace.ndjson")
     with open(trace, "w") as dest:
